@@ -354,6 +354,15 @@ def check_encoder_table(prog, rep):
                 s2.ghost["delta"] = v.aff
         return r
     I.extra_models["<&u16 as core::ops::arith::Sub<u16>>::sub"] = sub_model
+
+    def delta_value(I_, ctx, s, v):
+        # the plain-operator spelling: number - previous (both u16); recognised by the map key it is computed from
+        if ctx.body["path"] == body["path"] and isinstance(v, IntV) and v.ty == (16, False) and len(v.aff.t) >= 1:
+            keys = [sy for sy, co in v.aff.t if co == 1 and (I_.syminfo.get(sy) or ("",))[0] == "btree_key"]
+            if len(keys) == 1 and (len(v.aff.t) == 2 or (len(v.aff.t) == 1 and v.aff.c <= 0)):
+                if v.aff.c == 0 and "delta" not in s.ghost and (len(v.aff.t) == 1 or any(co == -1 for sy, co in v.aff.t if sy != keys[0])):
+                    s.ghost["delta"] = v.aff
+    I.value_hooks.append(delta_value)
     I, res = run(prog, body, args=[a0, lim], st=st, I=I)
     ok_rows = 0
     classes = set()
@@ -365,11 +374,11 @@ def check_encoder_table(prog, rep):
 
         def cls(e):
             lo, hi = s.range(e)
-            if hi <= FR["inline_max"]:
+            if hi <= FR["inline_max"] or s.entails(Aff.const(FR["inline_max"]) - e):
                 return "inline"
-            if lo >= FR["ext8_bias"] and hi < FR["ext16_bias"]:
+            if (lo >= FR["ext8_bias"] or s.entails(e - FR["ext8_bias"])) and (hi < FR["ext16_bias"] or s.entails(Aff.const(FR["ext16_bias"] - 1) - e)):
                 return "ext8"
-            if lo >= FR["ext16_bias"]:
+            if lo >= FR["ext16_bias"] or s.entails(e - FR["ext16_bias"]):
                 return "ext16"
             return None
         cd, cl = cls(delta), cls(ln)
